@@ -24,7 +24,7 @@ def build(n, k, s1, r1, s2, r2):
         r = choose(rng, ranges(n))
         if st is None or r is None:
             return None
-        s.apply_formatting(st[0], r[0], r[1])
+        s.apply_formatting(st[0], r[0], r[1] if r[1] < n else r[1] + 7)      # an end beyond the text is the end of the text
         for i in range(r[0], r[1]):
             exp[i].append(st[1])
     return s, exp
